@@ -492,6 +492,84 @@ def py_verdict(rec):
 # populations
 # ----------------------------------------------------------------------------
 
+def deep_specs(rng, n):
+    """Richer flow graphs than the shared populations give: two dynamic levels between loops on tensors
+    of three ranks (re-swizzles of >= 4 ranks inside loops), flattening over a partitioned rank with
+    discordant rank orders (multi-rank getPayload), occupancy on two ranks at once.  Loop orders are
+    random among those that keep the levels of one rank in order; the compiler rejects the rest."""
+    import specgen
+    out = []
+    tries = 0
+    while len(out) < n and tries < 20 * n:
+        tries += 1
+        batch = rng.random() < 0.5
+        decl = {"A": ["K", "M"] + (["P"] if batch else []), "B": ["K", "N"] + (["P"] if batch else []),
+                "Z": ["M", "N"] + (["P"] if batch else [])}
+        idx = lambda t: ", ".join(r.lower() for r in decl[t])
+        expr = "Z[%s] = A[%s] * B[%s]" % (idx("Z"), idx("A"), idx("B"))
+        lead = rng.choice(["A", "B"])
+        v = rng.choice(["two-level", "two-level", "two-ranks", "static-flatten", "dyn-flatten", "flatten3", "dyn-flatten3"])
+        part = {}
+        if v == "dyn-flatten3":
+            # a dynamic split whose lower level is flattened with two more ranks, then split again
+            decl = {"A": ["K", "M", "J"], "B": ["K", "J", "N"], "Z": ["M", "N"]}
+            expr = "Z[m, n] = A[k, m, j] * B[k, j, n]"
+            batch = False
+            part["K"] = ["uniform_occupancy(A.%d)" % rng.choice([3, 4])]
+            part["(M, K0, J)"] = ["flatten()"]
+            part["MK0J"] = ["uniform_occupancy(A.%d)" % rng.choice([2, 5])]
+            groups = [["K1", "MK0J1", "MK0J0"], ["N"]]
+        elif v == "flatten3":
+            # three ranks flattened; B holds only two of them: a two-rank getPayload(k, j)
+            decl = {"A": ["K", "M", "J"], "B": ["K", "J", "N"], "Z": ["M", "N"]}
+            expr = "Z[m, n] = A[k, m, j] * B[k, j, n]"
+            batch = False
+            part["(M, K, J)"] = ["flatten()"]
+            part["MKJ"] = ["uniform_occupancy(A.%d)" % rng.choice([3, 5])]
+            groups = [["MKJ1", "MKJ0"], ["N"]]
+        elif v == "two-level":
+            part["K"] = ["uniform_occupancy(%s.%d)" % (lead, rng.choice([4, 5, 6])), "uniform_occupancy(%s.%d)" % (lead, rng.choice([2, 3]))]
+            groups = [["K2", "K1", "K0"], ["M"], ["N"]]
+        elif v == "two-ranks":
+            part["K"] = ["uniform_occupancy(A.%d)" % rng.choice([4, 6]), "uniform_occupancy(A.%d)" % rng.choice([2, 3])]
+            part["N"] = ["uniform_occupancy(B.%d)" % rng.choice([3, 5])]
+            groups = [["K2", "K1", "K0"], ["M"], ["N1", "N0"]]
+        elif v == "static-flatten":
+            part["K"] = ["uniform_shape(%d)" % rng.choice([2, 4])]
+            part["(M, K0)"] = ["flatten()"]
+            part["MK0"] = ["uniform_occupancy(A.%d)" % rng.choice([3, 5])]
+            groups = [["K1", "MK01", "MK00"], ["N"]]
+        else:
+            part["M"] = ["uniform_shape(%d)" % rng.choice([3, 6])]
+            part["K"] = ["uniform_occupancy(A.%d)" % rng.choice([3, 4])]
+            part["(M0, K0)"] = ["flatten()"]
+            part["M0K0"] = ["uniform_occupancy(A.%d)" % rng.choice([2, 5])]
+            groups = [["M1", "K1", "M0K01", "M0K00"], ["N"]]
+        if batch:
+            groups.append(["P"])
+        # random interleaving that keeps each group's internal order
+        pools = [list(g) for g in groups]
+        loop = []
+        while any(pools):
+            g = rng.choice([q for q in pools if q])
+            loop.append(g.pop(0))
+        mp = {"partitioning": {"Z": part}, "loop-order": {"Z": loop}}
+        if rng.random() < 0.6:
+            ro = {}
+            for t in ("A", "B"):
+                rs = list(decl[t])
+                rng.shuffle(rs)
+                ro[t] = rs
+            mp["rank-order"] = ro
+        y = specgen.yaml_of(decl, [expr], mp)
+        try:
+            runlib.Spec(y).compile()
+        except Exception:   # noqa  (illegal combination: not part of the population)
+            continue
+        out.append({"yaml": y, "syms": {}, "kind": "deep:" + v, "mapping": mp})
+    return out
+
+
 def gather(ctx):
     rng = ctx.rng
     q = ctx.quick()
@@ -501,6 +579,7 @@ def gather(ctx):
     pops += list(popgen.occupancy(rng, 50 if q else 200))
     pops += list(popgen.affine(rng, 26 if q else 100))
     pops += list(popgen.cascade(rng, 10 if q else 40))
+    pops += deep_specs(rng, 24 if q else 90)
     base = list(popgen.shape(rng, 8 if q else 30)) + list(popgen.occupancy(rng, 22 if q else 90))
     pops += list(popgen.with_spacetime(rng, base))
     pops += popgen.accelerators()
@@ -660,9 +739,16 @@ def check_specs(ctx, items, tbs_of, tag, stats):
     stats["graphs_evaluated"] += len(exprs)
     stats["prune_checks_evaluated"] += len(pexprs)
     stats["seconds_kernel_graphs"] = round(time.time() - t0, 1)
+    default_pre = {}
+    for u, (idx, tb, text, real_flat, records, walk) in enumerate(units):
+        if tb is None:
+            default_pre[idx] = [rec["pre"] for rec in records]
     for u, (idx, tb, text, real_flat, records, walk) in enumerate(units):
         it = items[idx]
         depth_lists = []
+        if tb is not None and idx in default_pre:
+            stats["tiebreak_compiles"] += 1
+            stats["tiebreak_compiles_changing_the_sorted_list"] += 1 if [rec["pre"] for rec in records] != default_pre[idx] else 0
         for j, rec in enumerate(records):
             ids = intern_record(rec)
             rep = parse_report(res[where[coq_report_expr(rec, ids)]])
@@ -810,7 +896,7 @@ def behaviour_checks(ctx, outcomes, tag, stats):
             if t not in [x for _, x in texts]:
                 texts.append((tb, t))
         stats["targeted_flips_changing_the_text"] += sum(1 for tb, _ in texts if tb is not None and tb[0].startswith("front|"))
-        texts = texts[:MAX_EXECUTED_VARIANTS]
+        texts = texts[:MAX_EXECUTED_VARIANTS if ctx.quick() else MAX_EXECUTED_VARIANTS + 2]
         stats["distinct_texts"] += len(texts)
         stats["specs_with_variants"] += 1 if len(texts) > 1 else 0
         stats["max_variants"] = max(stats["max_variants"], len(texts))
@@ -866,6 +952,11 @@ def run(ctx):
         if it["kind"] == "occupancy" and row and row[1][1]:
             sample = {"kind": it["kind"], "yaml": it["yaml"], "tiebreak": tb_name(row[1][0]), "text": row[1][1][:1200]}
             break
+    if stats.get("tiebreak_compiles") and not stats.get("tiebreak_compiles_changing_the_sorted_list"):
+        ctx.notes.append("the substituted tie-breaks never changed the sorted list: FlowGraph.__sort no longer goes through nx.topological_sort; "
+                         "only the code's own order was examined in this run")
+    if stats.get("prune_not_observable"):
+        ctx.notes.append("FlowGraph._FlowGraph__prune not found: the pruning check (P) was skipped")
     stats = {k2: (dict(v) if isinstance(v, dict) else v) for k2, v in stats.items()}
     ctx.coverage.update({
         "programs": stats.get("specs", 0), "cases": stats.get("einsum_graphs", 0),
